@@ -24,7 +24,10 @@ func (p *Program) runStatic(name string, cfg *PropConfig, ld LoadSpec) []*Obliga
 	return []*Obligation{{Unit: "static", Kind: "static", Label: name, Goal: False, Src: "unknown static analysis " + name}}
 }
 
+type frameArgsList []frameArgs
+
 type frameArgs struct {
+	Unresolved     *bool               `json:"unresolved"` // check that every store write resolves to a declared family (default true)
 	Families       map[string][]string `json:"families"`        // family -> functions allowed to write it directly
 	AllowedUnknown []string            `json:"allowed_unknown"` // functions allowed to write with an unresolved key
 	Bank           map[string][]string `json:"bank"`            // "mint","burn","send" -> functions allowed to call them directly
@@ -145,13 +148,27 @@ func (p *Program) storeWrites() []storeWrite {
 func (p *Program) staticFrameComplete(cfg *PropConfig, ld LoadSpec) []*Obligation {
 	var args frameArgs
 	if raw, ok := cfg.StaticArgs["frame-complete"]; ok {
-		if err := json.Unmarshal(raw, &args); err != nil {
-			return []*Obligation{{Unit: "static", Kind: "frame-complete", Label: "config", Goal: False, Src: err.Error()}}
+		var list frameArgsList
+		if err := json.Unmarshal(raw, &list); err != nil {
+			var one frameArgs
+			if err2 := json.Unmarshal(raw, &one); err2 != nil {
+				return []*Obligation{{Unit: "static", Kind: "frame-complete", Label: "config", Goal: False, Src: err.Error()}}
+			}
+			list = frameArgsList{one}
+		}
+		found := false
+		for _, a := range list {
+			if a.Module == "" || a.Module == ld.Module {
+				args = a
+				found = true
+				break
+			}
+		}
+		if !found {
+			return nil
 		}
 	}
-	if args.Module != "" && args.Module != ld.Module {
-		return nil
-	}
+	unitName := moduleShort(ld.Module) + ":frame-complete"
 	allowedUnknown := map[string]bool{}
 	for _, f := range args.AllowedUnknown {
 		allowedUnknown[f] = true
@@ -161,7 +178,7 @@ func (p *Program) staticFrameComplete(cfg *PropConfig, ld LoadSpec) []*Obligatio
 	fams := sortedKeys(args.Families)
 	for _, fam := range fams {
 		if _, ok := p.famByName[fam]; !ok {
-			obls = append(obls, &Obligation{Unit: "frame-complete", Kind: "static", Label: fam, Goal: False, Src: "family " + fam + " is not declared"})
+			obls = append(obls, &Obligation{Unit: unitName, Kind: "static", Label: fam, Goal: False, Src: "family " + fam + " is not declared"})
 			continue
 		}
 		allowed := map[string]bool{}
@@ -179,7 +196,7 @@ func (p *Program) staticFrameComplete(cfg *PropConfig, ld LoadSpec) []*Obligatio
 				bad = append(bad, fmt.Sprintf("%s (%s at %s)", w.Func, w.Op, w.Pos))
 			}
 		}
-		o := &Obligation{Unit: "frame-complete", Kind: "static", Label: fam, Goal: True,
+		o := &Obligation{Unit: unitName, Kind: "static", Label: fam, Goal: True,
 			Src: fmt.Sprintf("only %v write store family %s directly (%d write sites found)", args.Families[fam], fam, n)}
 		if len(bad) > 0 {
 			o.Goal = False
@@ -195,7 +212,10 @@ func (p *Program) staticFrameComplete(cfg *PropConfig, ld LoadSpec) []*Obligatio
 		}
 	}
 	sort.Strings(unk)
-	o := &Obligation{Unit: "frame-complete", Kind: "static", Label: "unresolved-keys", Goal: True, Src: "every store write in the module resolves to a declared family or is explicitly allowed"}
+	if args.Unresolved != nil && !*args.Unresolved {
+		return obls
+	}
+	o := &Obligation{Unit: unitName, Kind: "static", Label: "unresolved-keys", Goal: True, Src: "every store write in the module resolves to a declared family or is explicitly allowed"}
 	if len(unk) > 0 {
 		o.Goal = False
 		o.Src = "store writes whose key does not resolve to a declared family: " + strings.Join(unk, "; ")
@@ -206,3 +226,10 @@ func (p *Program) staticFrameComplete(cfg *PropConfig, ld LoadSpec) []*Obligatio
 
 func (p *Program) staticEntryPoints(cfg *PropConfig, ld LoadSpec) []*Obligation { return nil }
 func (p *Program) staticEffects(cfg *PropConfig, ld LoadSpec) []*Obligation    { return nil }
+
+func moduleShort(m string) string {
+	if i := strings.LastIndex(m, "/"); i >= 0 {
+		return m[i+1:]
+	}
+	return m
+}
